@@ -106,7 +106,9 @@ def c11_starts():
 def work(task):
     name, project, depth, level, profile = task
     stats, violations = EA.bfs(project, depth, judge, level=level,
-                               kinds=KINDS, row_profile=profile)
+                               kinds=KINDS, row_profile=profile,
+                               alphabet_opts={'rename_pk': True,
+                                              'add_types': ('FK', 'M2M')})
     stats['starts'] = 1
     return name, stats, violations
 
